@@ -69,7 +69,13 @@ func canonPaths(cs *vrun.Case, v interface{}) interface{} {
 				}
 				if b, err := os.ReadFile(f); err == nil && strings.HasPrefix(string(b), "tok:") {
 					if e := strings.IndexByte(string(b), '\n'); e > 0 {
-						return "file:" + string(b[:e])
+						// ... but whether the value names a location under
+						// the pipestance's outs/ directory cannot differ
+						where := "elsewhere"
+						if strings.HasPrefix(a, filepath.Join(cs.PsDir, "outs")+"/") {
+							where = "outs"
+						}
+						return "file@" + where + ":" + string(b[:e])
 					}
 				}
 			}
@@ -579,6 +585,28 @@ func init() {
 					} else {
 						addSpec(sp)
 					}
+				}
+			}
+			// the post-processing window, point by point: everything mrp does
+			// after the last job (final VDR, moving files to outs/, rewriting
+			// the top-level _outs, final state, unlock) - a restart there has
+			// no job left to run and must only finish that work
+			if !exhaustive {
+				last := -1
+				for i, t := range fp.points {
+					if t.Name == "ps:postprocess" {
+						last = i
+					}
+				}
+				if last >= 0 {
+					w := fp.points[last:]
+					if max := c.Pick(24, 80); len(w) > max {
+						w = w[:max]
+					}
+					for k, t := range w {
+						addSpec(crashSpec{Point: t.Name, Hit: t.Hit, Signal: []string{"KILL", "TERM"}[(k+pi)%2]})
+					}
+					c.Count("post_processing_window_points", int64(len(w)))
 				}
 			}
 			// the job monitor signals mrp just before / just after it records
